@@ -33,6 +33,7 @@ def run_contract(u):
         sim.set('integrator', L.enumerators['REB_INTEGRATOR_' + integ]); sim.set('gravity', L.enumerators['REB_GRAVITY_NONE'])
         t0, dt, tmax = dom.fresh('t0'), dom.fresh('dt'), dom.fresh('tmax')
         sim.set('t', t0); sim.set('dt', dt); sim.set('exact_finish_time', eft)
+        sim.set('dt_last_done', dom.fresh('dt_last_done_before'))      # arbitrary leftover of an earlier integrate() call
         ctx.assume(dt != 0)
         if case == 'noop': ctx.assume(tmax == t0)
         else:
@@ -55,7 +56,7 @@ def run_contract(u):
         ob = Obligations(rep, prover, label + "path%d " % rep.paths)
         pc = list(ctx.pc)
         def on_sat(model):
-            vals = {k: model_value(model, v) for k, v in (('t0', t0), ('dt', dt), ('tmax', tmax))}
+            vals = {k: model_value(model, v) for k, v in (('t0', t0), ('dt', dt), ('tmax', tmax), ('dt_last_done', z3.Real('dt_last_done_before')))}
             ok, detail = native_contract(integ, eft, case, {k: float(v) for k, v in vals.items()})
             return ok, 'C08:contract:%s:eft%d' % (integ, eft), detail, dict(integ=integ, eft=eft, case=case, vals={k: float(v) for k, v in vals.items()})
         tf = dom.z(sim.get('t')); dtf = dom.z(sim.get('dt')); steps = sim.get('steps_done'); status = ret
@@ -88,7 +89,7 @@ def run_contract(u):
             ob.prove("number of steps is the one implied by dt: (n-1)|dt| < |tmax-t0| <= n|dt|  (n=%d)" % n, z3.And((n - 1) * absdt < delta, delta <= n * absdt), pc, on_sat=on_sat, **D)
             ob.prove("heartbeat called once per step boundary", len(trace) == n + 1, pc, on_sat=on_sat, **D)
         def wit(model):
-            vals = {k: float(model_value(model, v)) for k, v in (('t0', t0), ('dt', dt), ('tmax', tmax))}
+            vals = {k: float(model_value(model, v)) for k, v in (('t0', t0), ('dt', dt), ('tmax', tmax), ('dt_last_done', z3.Real('dt_last_done_before')))}
             bad, detail = native_contract(integ, eft, case, vals)
             if bad: raise RuntimeError("native run violates the contract on a path whose obligations were discharged: " + detail)
         ob.witness("path condition", pc, replay=wit)
@@ -105,7 +106,7 @@ def native_contract(integ, eft, case, v):
     try:
         if case != 'noparticles': ns.add(m=1.0)
         ns.set('integrator', L.enumerators['REB_INTEGRATOR_' + integ]); ns.set('gravity', L.enumerators['REB_GRAVITY_NONE'])
-        ns.set('t', v['t0']); ns.set('dt', v['dt']); ns.set('exact_finish_time', eft)
+        ns.set('t', v['t0']); ns.set('dt', v['dt']); ns.set('exact_finish_time', eft); ns.set('dt_last_done', v.get('dt_last_done', 0.0))
         f = N.lib.reb_simulation_integrate; f.argtypes = [ctypes.c_void_p, ctypes.c_double]; f.restype = ctypes.c_int
         st = f(ns.addr, v['tmax'])
         tf, dtf, n = ns.get('t'), ns.get('dt'), ns.get('steps_done')
